@@ -334,10 +334,16 @@ def excluded_class(cells, c):
     t = cells[i][2]
     if EXCLUDE_PIPE_EQ and kind == 'repl_aggop' and arg == '|=':
         return 'finding:pipe_eq_operator'
-    if EXCLUDE_EMPTY_ARRAYSUB and kind == 'del_atom' and 0 < i < len(cells) - 1:
-        before, after = cells[i - 1][2], cells[i + 1][2]
-        if before.text == '[' and before.glue and after.text == ']':
-            return 'finding:cpp_empty_array_subscript'
+    if EXCLUDE_EMPTY_ARRAYSUB and kind == 'del_atom':
+        # the only index of `l[..]`, possibly inside redundant parentheses: `l[((i))]`
+        j, k = i - 1, i + 1
+        while j > 0 and k < len(cells) - 1 and cells[j][2].text == '(' and \
+                cells[k][2].text == ')':
+            j, k = j - 1, k + 1
+        if 0 <= j and k < len(cells):
+            before, after = cells[j][2], cells[k][2]
+            if before.text == '[' and before.glue and after.text == ']':
+                return 'finding:cpp_empty_array_subscript'
     if EXCLUDE_DEN_NAMED and t.reg == 'den':
         if (kind == 'ins_stray' and arg in (':', '..')) or \
                 (kind == 'repl_op' and arg == ':'):
